@@ -114,6 +114,18 @@ class Monitors:
             if o.remaining_trials() != o.max_trials - len(o.trials):
                 raise Violation("C02", f"remaining_trials {o.remaining_trials()} != {o.max_trials} - {len(o.trials)}")
 
+    def invariants_after_end(self, o, tid):
+        """C01 clause 'once ended it is recorded as COMPLETED, FAILED or queued for retry - never lost'"""
+        t = o.trials[tid]
+        queued = tid in o._retry_queue
+        ended = tid in o.end_order
+        if queued == ended:
+            raise Violation("C01", f"ended trial {tid} is in {'both' if queued else 'neither'} the retry queue and the end order", {"tag": "lost"})
+        if ended and t.status not in ("COMPLETED", "FAILED"):
+            raise Violation("C01", f"ended trial {tid} is recorded with status {t.status} (neither COMPLETED, FAILED nor queued for retry)", {"tag": "lost"})
+        if t.status == "COMPLETED" and (t.score is None or t.score != t.score):
+            raise Violation("C01", f"COMPLETED trial {tid} without a score", {"tag": "no-score"})
+
     def on_create(self, o, w, t, held_before, rq_before, n_before):
         if held_before is not None:
             if t.trial_id != held_before:
@@ -416,7 +428,15 @@ def scenario(sseed, kind, mode, res, crash_at=None, second=None, maxlen=60):
                                 quiet(twin.end_trial, t2c)
                             except RuntimeError:
                                 pass
-                        mon.on_end(o, t.trial_id, st_req, aborted)
+                        found = []
+                        for chk in ((lambda: mon.on_end(o, t.trial_id, st_req, aborted)), (lambda: None if aborted else mon.invariants_after_end(o, t.trial_id))):
+                            try:
+                                chk()
+                            except Violation as v:
+                                found.append(v)
+                        if found:
+                            found[0].also = found[1:]
+                            raise found[0]
                         if aborted:
                             expect.append("ABORT")
                             tags["abort"] += 1
@@ -568,8 +588,9 @@ def run(seed, tier, n=None, kinds=KINDS, modes=("plain", "plain", "reload", "cra
         try:
             lines, expect, doc, tags = guarded(sseed, kind, mode, res)
         except Violation as v:
-            res.violations.append({"pid": v.pid, "what": v.what, "sig": v.sig,
-                                   "replay": {"suite": "oracle", "kind": kind, "mode": mode, "seed": sseed}})
+            for vv in [v] + list(getattr(v, "also", [])):
+                res.violations.append({"pid": vv.pid, "what": vv.what, "sig": vv.sig,
+                                       "replay": {"suite": "oracle", "kind": kind, "mode": mode, "seed": sseed}})
             res.scenarios += 1
             continue
         res.scenarios += 1
